@@ -3,6 +3,7 @@ package rux
 import (
 	"context"
 	"io"
+	"math"
 	"mime/multipart"
 	"net"
 	"net/http"
@@ -23,6 +24,9 @@ const (
 	defaultMaxMemory = 32 << 20 // 32 MB
 	// abortIndex int8 = math.MaxInt8 / 2
 	abortIndex int8 = 63
+	// abortedIndex is the position of an aborted chain. It is larger than the length of
+	// any chain: global middleware is not counted by the handlers limit (abortIndex).
+	abortedIndex = math.MaxInt32
 )
 
 // M a short name for `map[string]any`
@@ -38,7 +42,7 @@ type Context struct {
 	Params Params
 	Errors []error
 
-	index int8
+	index int
 	// current router instance
 	router *Router
 	// context data, you can save some custom data.
@@ -64,17 +68,17 @@ func (c *Context) RawWriter() http.ResponseWriter {
 
 // Abort will abort at the end of this middleware run
 func (c *Context) Abort() {
-	c.index = abortIndex
+	c.index = abortedIndex
 }
 
 // IsAborted returns true if the current context was aborted.
 func (c *Context) IsAborted() bool {
-	return c.index >= abortIndex
+	return c.index >= abortedIndex
 }
 
 // AbortThen will abort at the end of this middleware run, and return context to continue.
 func (c *Context) AbortThen() *Context {
-	c.index = abortIndex
+	c.index = abortedIndex
 	return c
 }
 
@@ -91,7 +95,7 @@ func (c *Context) AbortWithStatus(code int, msg ...string) {
 
 // Next processing, run all handlers
 func (c *Context) Next() {
-	s := int8(len(c.handlers))
+	s := len(c.handlers)
 	// the chain is finished or aborted: nothing left to run. Don't move the index.
 	if c.index >= s {
 		return
@@ -101,7 +105,7 @@ func (c *Context) Next() {
 	for ; c.index < s; c.index++ {
 		c.handlers[c.index](c)
 		// the handler has run the rest of the chain (by a nested Next) or aborted it.
-		// keep the index at len(handlers)/abortIndex: it must not climb on each unwound level.
+		// keep the index at len(handlers)/abortedIndex: it must not climb on each unwound level.
 		if c.index >= s {
 			return
 		}
@@ -125,7 +129,7 @@ func (c *Context) Copy() *Context {
 	ctx.writer.Writer = nil
 	ctx.Resp = &ctx.writer
 	ctx.handlers = nil
-	ctx.index = abortIndex
+	ctx.index = abortedIndex
 	return &ctx
 }
 
